@@ -171,7 +171,7 @@ def candidates (s : S) : List Label :=
 /-- the labels that can fire in `s` -/
 def enabled (c : Cfg) (s : S) : List Label := (candidates s).filter fun l => (next c s l).isSome
 
-/-- the protocol as a relation: 24 rules, one per label -/
+/-- the protocol as a relation: 22 rules, one per label -/
 inductive Step (c : Cfg) : S → S → Prop
   | submit (s : S) (p : Bool) (h1 : s.shut = 0) (h2 : s.inq.length < c.inCap) : Step c s (doSubmit s p)
   | shutdown (s : S) (h : s.shut = 0) : Step c s { s with shut := 1 }
